@@ -247,11 +247,26 @@ fn mid(k: u8) -> Mid {
     Mid { first: leaf(k), second: (0..(k % 4)).map(leaf).collect(), third: if k % 2 == 0 { Some(leaf(k + 1)) } else { None }, hidden: 5, fourth: (k, leaf(9)) }
 }
 
+/// a std mutex poisoned by a thread that panicked while holding it
+fn poisoned<T: Send + 'static>(x: T) -> std::sync::Mutex<T> {
+    let m = std::sync::Arc::new(std::sync::Mutex::new(x));
+    let m2 = m.clone();
+    let _ = std::thread::spawn(move || {
+        let _g = m2.lock().unwrap();
+        panic!("poison");
+    })
+    .join();
+    match std::sync::Arc::try_unwrap(m) {
+        Ok(m) => m,
+        Err(_) => panic!("mutex still shared"),
+    }
+}
+
 pub fn fixed_names() -> Vec<&'static str> {
     vec![
         "top", "mid", "dups", "leaf", "u8", "string", "unit", "vec_empty", "vec_u8_3", "vec_vec", "opt_none", "opt_some_vec", "res_ok", "res_err",
         "tuple1", "tuple2", "tuple3", "tuple4", "array3", "array0", "array_10001", "vec_10001", "box_slice", "arc_slice", "arc_str", "boxed",
-        "rc", "arc", "refcell", "std_mutex", "vecdeque", "binheap", "btreemap0", "btreemap2", "btreemap_nested", "hashmap1", "hashset2", "btreeset3",
+        "rc", "arc", "refcell", "std_mutex", "std_mutex_poisoned", "struct_with_poisoned_mutex", "vecdeque", "binheap", "btreemap0", "btreemap2", "btreemap_nested", "hashmap1", "hashset2", "btreeset3",
         "indexmap2", "indexset2", "smallvec", "arrayvec", "arraystring", "range", "ipaddr", "pathbuf", "cow", "bitvec", "bitset", "removed",
         "en_unit", "en_tup", "en_named", "phantom", "atomic", "f32", "char", "schema", "vec_btreemap", "opt_btreemap",
     ]
@@ -289,6 +304,8 @@ pub fn with_fixed<R>(name: &str, f: &mut dyn FnMut(&dyn Introspect) -> R) -> R {
         "arc" => f(&std::sync::Arc::new(mid(2))),
         "refcell" => f(&std::cell::RefCell::new(mid(2))),
         "std_mutex" => f(&std::sync::Mutex::new(vec![leaf(1), leaf(2)])),
+        "std_mutex_poisoned" => f(&poisoned(vec![leaf(1), leaf(2)])),
+        "struct_with_poisoned_mutex" => f(&(7u8, std::sync::Arc::new(poisoned(leaf(3))), vec![1u8, 2])),
         "vecdeque" => f(&VecDeque::from(vec![leaf(1), leaf(2)])),
         "binheap" => f(&BinaryHeap::from(vec![5u16, 1, 3])),
         "btreemap0" => f(&BTreeMap::<u8, u8>::new()),
